@@ -34,6 +34,9 @@ type RunConfig struct {
 	CrossCheck      []smt.OneShot // thorough: re-discharge assertion queries
 	CrossTimeout    time.Duration
 	Trace           bool
+	// Solver selects a one-shot back end for every query of this run:
+	// "" (incremental z3), "cvc5-int", "cvc5", "z3-new".
+	Solver          string
 }
 
 // PathOutcome summarises one completed path.
@@ -183,6 +186,23 @@ func (in *Interp) runPath(h *Harness, cfg *RunConfig, item *WorkItem, res *pathR
 	}
 	if len(h.stubMap) > 0 {
 		p.stubs = h.stubMap
+	}
+	switch cfg.Solver {
+	case "cvc5-int":
+		o := smt.CVC5Int
+		p.oneShot = &o
+	case "cvc5":
+		o := smt.CVC5
+		p.oneShot = &o
+	case "z3-new":
+		o := smt.Z3New
+		p.oneShot = &o
+	}
+	if p.oneShot != nil {
+		p.oneShotTimeout = time.Duration(cfg.TimeoutMs) * time.Millisecond
+		if p.oneShotTimeout == 0 {
+			p.oneShotTimeout = 120 * time.Second
+		}
 	}
 	if len(cfg.CrossCheck) > 0 {
 		p.queryHook = func(label string, pc []T, neg T, r smt.Result) {
@@ -380,6 +400,8 @@ func Explore(prog *Program, pool *Pool, cfg RunConfig) (*RunResult, error) {
 					knownSeen[k] = true
 				}
 				res.AssertQ += p.assertQueries
+				res.Queries += p.oneShotQueries
+				res.SolverTime += p.oneShotTime.Seconds()
 				res.CrossChecked += p.crossChecked
 				res.CrossDisagree = append(res.CrossDisagree, p.crossDisagree...)
 				if res.Paths >= cfg.MaxPaths || (!cfg.Deadline.IsZero() && time.Now().After(cfg.Deadline)) {
